@@ -22,14 +22,28 @@ property demands (a rejected statement has no effect; a value outside the variab
 rejected, never wrapped or rounded; an unqualified `@@x` of a GLOBAL-only variable is its global
 value). Every quirk is a named `Region` of Props/C44.
 
-Not modelled (kept out of the generator, see `Var.special`): variables with a `NotifyChanged`
-hook or a `ValueFunction`, the character-set/collation pairs coupled in `setSystemVar`,
-`time_zone` validation, `character_set_database`/`collation_database`, `sql_mode` given as an
-integer literal (planbuilder rewrites it through `ConvertSqlModeBitmask`), variables whose type is
-not a system_* type (`server_id`, `server_uuid`).
-Assumptions on values: decimal / float literals have |mantissa| < 2^53 (so float64 conversion of
-the integral ones is exact); strings given to double variables are plain decimals or garbage;
-names of set members are ASCII (collation hash = case-insensitive comparison).
+String → typed value (`case string:` of the system_* `Convert`s) is modelled on the characters:
+`parseIntL` = `strconv.ParseInt(s, 10, 64)` (optional sign, decimal digits, nothing else — no base
+prefix, no underscore, no blank, no exponent; leading zeros are decimal), `parseFloatL` =
+`strconv.ParseFloat(s, 64)` on finite values (`readFloat` + `underscoreOK`: decimal mantissa with
+optional point and `e` exponent; Go-literal extras: `_` between digits, `0x…p…` hexadecimal
+floats), `boolOfChars` (on / off / true / false); system_uint has no string arm.
+The character-set / collation variables are modelled too: `Var.allowed` = the `NotifyChanged`
+validators `validateCharacterSet` / `validateCollation`, `Var.couple` = the second assignment of
+`setSystemVar` (character_set_connection ↔ collation_connection, character_set_server ↔
+collation_server, written through the scope of the statement), `Var.catalog` = session-scope reads
+of `character_set_database` / `collation_database` come from the current database
+(`MysqlScope.GetValue`), `expandNames` = `SET NAMES` (planbuilder `buildSet`).
+
+Not modelled (kept out of the generator, see `Var.special`): variables with another
+`NotifyChanged` hook or a `ValueFunction`, `time_zone` validation, `SET NAMES … COLLATE` (the
+COLLATE part is dropped by the planbuilder) and `SET CHARACTER SET`, `sql_mode` / `collation_*` /
+`lc_time_names` given as an integer literal (planbuilder rewrites it), variables whose type is not
+a system_* type (`server_id`, `server_uuid`).
+Assumptions on values: decimal / float literals and the mantissas of numeric strings have
+magnitude < 2^53 and at most 15 significant digits, exponents are small (float64 conversion is
+exact and `inf` / `nan` / out-of-range strings are rejected by the bounds); names of set members
+are ASCII (collation hash = case-insensitive comparison).
 -/
 namespace Gms.SysVars
 
@@ -80,6 +94,16 @@ structure Var where
   special : Bool
   ty : Ty
   default : SVal
+  /-- `NotifyChanged = validateCharacterSet / validateCollation`: the names (lower case, `""`
+  included) `sql.ParseCharacterSet` / `sql.ParseCollation` accept, dumped from the compiled code -/
+  allowed : Option (List String) := none
+  /-- `setSystemVar`: the counterpart that is assigned next, in the scope of the statement, and the
+  map value (lower case) ↦ counterpart's value (character set ↦ its default collation, collation ↦
+  its character set), dumped from the compiled code -/
+  couple : Option (String × List (String × String)) := none
+  /-- `MysqlScope.GetValue`, SESSION scope: `character_set_database` / `collation_database` are
+  read from the current database, not from the session -/
+  catalog : Option SVal := none
 deriving DecidableEq, Repr
 
 abbrev Reg := List Var
@@ -96,10 +120,16 @@ structure Quirks where
   persistFirst : Bool
   /-- unqualified `@@x` of a GLOBAL-only variable reads the session's start-up copy -/
   staleGlobalOnly : Bool
+  /-- `strconv.ParseFloat` accepts Go literal syntax for a double variable: `_` between digits and
+  hexadecimal floats (`'1_000'` = 1000, `'0x1p4'` = 16); the property demands decimal notation -/
+  goFloat : Bool
+  /-- SESSION-scope reads of `character_set_database` / `collation_database` ignore the session's
+  value (and a new session does not see the global one) -/
+  catalogReads : Bool
 deriving DecidableEq, Repr
 
-def implQ : Quirks := ⟨true, true, true, true, true⟩
-def specQ : Quirks := ⟨false, false, false, false, false⟩
+def implQ : Quirks := ⟨true, true, true, true, true, true, true⟩
+def specQ : Quirks := ⟨false, false, false, false, false, false, false⟩
 
 /-! ### strings -/
 
@@ -119,30 +149,118 @@ def parseNat (cs : List Char) : Option Nat :=
 def two63 : Nat := 9223372036854775808
 def two64 : Nat := 18446744073709551616
 
-/-- Go `strconv.ParseInt(s, 10, 64)`. -/
-def parseInt (s : String) : Option Int :=
-  let r : Option Int := match s.toList with
-    | '-' :: cs => (parseNat cs).map fun n => -(n : Int)
-    | '+' :: cs => (parseNat cs).map fun n => (n : Int)
-    | cs => (parseNat cs).map fun n => (n : Int)
+/-- Go `strconv.ParseInt(s, 10, 64)` on the characters of `s`: one optional sign, then decimal
+digits only (base 10 is fixed: no `0x` / `0b` / `0o` / leading-zero-octal, no `_`), 64-bit range. -/
+def parseIntL (cs : List Char) : Option Int :=
+  let r : Option Int := match cs with
+    | '-' :: ds => (parseNat ds).map fun n => -(n : Int)
+    | '+' :: ds => (parseNat ds).map fun n => (n : Int)
+    | ds => (parseNat ds).map fun n => (n : Int)
   match r with
   | some i => if -(two63 : Int) ≤ i ∧ i < two63 then some i else none
   | none => none
 
-/-- Plain decimals `[-]digits[.digits]` (the envelope for strings given to double variables);
-anything else is `none` (Go `strconv.ParseFloat` would accept more, see the header). -/
-def parseDecimal (s : String) : Option (Int × Nat) :=
-  let (neg, cs) := match s.toList with
-    | '-' :: cs => (true, cs)
-    | cs => (false, cs)
-  let ip := cs.takeWhile (· ≠ '.')
-  let rest := cs.dropWhile (· ≠ '.')
-  let fp := rest.drop 1
-  if ip.isEmpty then none
-  else if !rest.isEmpty && fp.isEmpty then none
-  else match parseNat (ip ++ fp) with
-    | some n => some (if neg then -(n : Int) else n, fp.length)
-    | none => none
+def parseInt (s : String) : Option Int := parseIntL s.toList
+
+/-- `case string:` of system_bool.go (`strings.ToLower`, ASCII letters). -/
+def boolOfChars (cs : List Char) : Option Bool :=
+  let l := cs.map lowerC
+  if l = ['o', 'n'] ∨ l = ['t', 'r', 'u', 'e'] then some true
+  else if l = ['o', 'f', 'f'] ∨ l = ['f', 'a', 'l', 's', 'e'] then some false
+  else none
+
+/-! #### `strconv.ParseFloat` (finite results) -/
+
+/-- value of a digit of `readFloat` (hexadecimal letters only in a `0x` mantissa) -/
+def digitIn (hex : Bool) (c : Char) : Option Nat :=
+  if '0' ≤ c ∧ c ≤ '9' then some (c.toNat - 48)
+  else if hex = true ∧ 'a' ≤ c ∧ c ≤ 'f' then some (c.toNat - 87)
+  else if hex = true ∧ 'A' ≤ c ∧ c ≤ 'F' then some (c.toNat - 55)
+  else none
+
+/-- The mantissa loop of `readFloat` (underscores already removed): digits with at most one `.`;
+returns the coefficient, the number of digits after the point, the number of digits, the rest. -/
+def scanMant (hex : Bool) : List Char → Nat → Nat → Nat → Bool → Nat × Nat × Nat × List Char
+  | [], acc, frac, nd, _ => (acc, frac, nd, [])
+  | c :: cs, acc, frac, nd, dot =>
+    if c = '.' then
+      if dot then (acc, frac, nd, c :: cs) else scanMant hex cs acc frac nd true
+    else match digitIn hex c with
+      | some d => scanMant hex cs (acc * (if hex then 16 else 10) + d) (if dot then frac + 1 else frac) (nd + 1) dot
+      | none => (acc, frac, nd, c :: cs)
+
+/-- exponent after `e` / `p`: optional sign, decimal digits up to the end of the string -/
+def parseExp : List Char → Option Int
+  | '+' :: ds => (parseNat ds).map fun n => (n : Int)
+  | '-' :: ds => (parseNat ds).map fun n => -(n : Int)
+  | ds => (parseNat ds).map fun n => (n : Int)
+
+/-- `c * b^e` (b = 2 or 10) as `m / 10^s`. -/
+def mkRat (neg : Bool) (c : Nat) (e : Int) (two : Bool) : Int × Nat :=
+  let m : Int := if neg then -(c : Int) else c
+  if two then
+    if 0 ≤ e then (m * (2 ^ e.toNat : Nat), 0) else (m * (5 ^ (-e).toNat : Nat), (-e).toNat)
+  else
+    if 0 ≤ e then (m * (10 ^ e.toNat : Nat), 0) else (m, (-e).toNat)
+
+/-- `readFloat` after the sign: `0x` selects a hexadecimal mantissa, which must be followed by a `p`
+exponent; a decimal mantissa may be followed by an `e` exponent; at least one digit; nothing after. -/
+def parseFloatBody (neg : Bool) (cs : List Char) : Option (Int × Nat) :=
+  let hb : Bool × List Char := match cs with
+    | '0' :: x :: rest => if lowerC x = 'x' then (true, rest) else (false, cs)
+    | _ => (false, cs)
+  let hex := hb.1
+  match scanMant hex hb.2 0 0 0 false with
+  | (c, frac, nd, rest) =>
+    if nd = 0 then none else
+    match rest with
+    | [] => if hex then none else some (mkRat neg c (-(frac : Int)) false)
+    | x :: ex =>
+      if lowerC x = (if hex then 'p' else 'e') then
+        match parseExp ex with
+        | some e => some (if hex then mkRat neg c (e - 4 * (frac : Int)) true else mkRat neg c (e - (frac : Int)) false)
+        | none => none
+      else none
+
+/-- Go `strconv.underscoreOK` from the number proper on; `saw` is `^` (start), `0` (digit or base
+prefix), `_` or `!` (anything else). -/
+def usOK (hex : Bool) : List Char → Char → Bool
+  | [], saw => saw != '_'
+  | c :: cs, saw =>
+    if (digitIn hex c).isSome then usOK hex cs '0'
+    else if c = '_' then (if saw = '0' then usOK hex cs '_' else false)
+    else if saw = '_' then false
+    else usOK hex cs '!'
+
+def dropSign : List Char → List Char
+  | '+' :: r => r
+  | '-' :: r => r
+  | r => r
+
+/-- Go `strconv.underscoreOK`: an underscore only between digits or between a base prefix and a digit. -/
+def underscoreOK (cs : List Char) : Bool :=
+  match dropSign cs with
+  | '0' :: p :: rest =>
+    if lowerC p = 'b' ∨ lowerC p = 'o' ∨ lowerC p = 'x' then usOK (lowerC p = 'x') rest '0'
+    else usOK false ('0' :: p :: rest) '^'
+  | r => usOK false r '^'
+
+/-- The string uses Go literal syntax that is not decimal notation: an underscore, or a `0x` prefix. -/
+def goSyntax (cs : List Char) : Bool :=
+  cs.contains '_' || (match dropSign cs with
+    | '0' :: x :: _ => lowerC x = 'x'
+    | _ => false)
+
+/-- Go `strconv.ParseFloat(s, 64)` on the characters of `s`, finite results as `m / 10^s`:
+underscores are skipped by `readFloat` and checked afterwards by `underscoreOK`; the property
+(`goFloat = false`) accepts decimal notation only. -/
+def parseFloatL (q : Quirks) (cs : List Char) : Option (Int × Nat) :=
+  if goSyntax cs && !q.goFloat then none
+  else if cs.contains '_' && !underscoreOK cs then none
+  else match cs.filter (· != '_') with
+    | '-' :: r => parseFloatBody true r
+    | '+' :: r => parseFloatBody false r
+    | r => parseFloatBody false r
 
 def splitOnComma : List Char → List Char → List (List Char)
   | [], cur => [cur.reverse]
@@ -241,9 +359,9 @@ def convert (q : Quirks) : Ty → Val → Option SVal
     | some 1 => some (.i8 true)
     | _ => none
   | .bool, .str s =>
-    let l := lower s
-    if l = "on" ∨ l = "true" then some (.i8 true)
-    else if l = "off" ∨ l = "false" then some (.i8 false) else none
+    match boolOfChars s.toList with
+    | some b => some (.i8 b)
+    | none => none
   | .bool, .null => none
   -- system_int.go
   | .int lo hi neg, .int i => convInt q lo hi neg i
@@ -255,7 +373,7 @@ def convert (q : Quirks) : Ty → Val → Option SVal
     | some i => convInt q lo hi neg i
     | none => none
   | .int lo hi neg, .str s =>
-    match parseInt s with
+    match parseIntL s.toList with
     | some i => convInt q lo hi neg i
     | none => none
   | .int _ _ _, .null | .int _ _ _, .bool _ => none
@@ -279,7 +397,7 @@ def convert (q : Quirks) : Ty → Val → Option SVal
   | .double lo hi, .uint n => if inDbl lo hi n 0 then some (mkDbl n 0) else none
   | .double lo hi, .dec m s | .double lo hi, .flt m s => if inDbl lo hi m s then some (mkDbl m s) else none
   | .double lo hi, .str s =>
-    match parseDecimal s with
+    match parseFloatL q s.toList with
     | some (m, sc) => if inDbl lo hi m sc then some (mkDbl m sc) else none
     | none => none
   | .double _ _, .null | .double _ _, .bool _ => none
@@ -312,6 +430,22 @@ def convert (q : Quirks) : Ty → Val → Option SVal
   | .string, .str s => some (.str s)
   | .string, _ => none
   | .other, _ => none
+
+/-- The `case string:` arm of the numeric system_* `Convert`s on the characters of the string
+(`convert q ty (.str s) = convStr q ty s.toList` for these types, `convert_str`); enum, set and
+string variables work on the string as a whole. -/
+def convStr (q : Quirks) : Ty → List Char → Option SVal
+  | .bool, cs => match boolOfChars cs with
+    | some b => some (.i8 b)
+    | none => none
+  | .int lo hi neg, cs => match parseIntL cs with
+    | some i => convInt q lo hi neg i
+    | none => none
+  | .uint _ _, _ => none
+  | .double lo hi, cs => match parseFloatL q cs with
+    | some (m, sc) => if inDbl lo hi m sc then some (mkDbl m sc) else none
+    | none => none
+  | _, _ => none
 
 /-- The value is one the type's `Convert` can produce (what "has the variable's type" means). -/
 def valid : Ty → SVal → Bool
@@ -394,12 +528,13 @@ def newSession (st : State) (sid : Nat) : State :=
 
 /-! ### statements -/
 
-inductive Err | unknown | globalOnly | sessionOnly | readOnly | invalid | unsupported | other
+inductive Err | unknown | globalOnly | sessionOnly | readOnly | invalid | unsupported | other | charset
 deriving DecidableEq, Repr
 
 def Err.toString : Err → String
   | .unknown => "unknown" | .globalOnly => "globalonly" | .sessionOnly => "sessiononly"
   | .readOnly => "readonly" | .invalid => "invalid" | .unsupported => "unsupported" | .other => "other"
+  | .charset => "charset"
 
 /-- Scope of a reference after `VarScope`: `explicit` = written as `@@scope.x` (specifiedScope ≠ ""). -/
 inductive SetScope | session | global | persist | persistOnly
@@ -453,13 +588,23 @@ def resolveRef (r : Reg) (ref : SysRef) : Except Err Unit :=
     | none => .error .unknown
   | .persist | .persistOnly => .ok ()
 
-/-- `MysqlSystemVariable.SetValue` checks, then `InitValue` = `Type.Convert`. -/
+/-- `NotifyChanged` of the character-set / collation variables (`validateCharacterSet`,
+`validateCollation`): the converted value must be a name `ParseCharacterSet` / `ParseCollation`
+accepts (case-insensitively). -/
+def notifyOk (v : Var) (sv : SVal) : Bool :=
+  match v.allowed with
+  | none => true
+  | some names => match sv with
+    | .str s => names.contains (lower s)
+    | _ => false
+
+/-- `MysqlSystemVariable.SetValue` checks, then `InitValue` = `Type.Convert` + `NotifyChanged`. -/
 def setValue (q : Quirks) (v : Var) (x : Val) (global : Bool) : Except Err SVal :=
   if global && v.scope = .session then .error .sessionOnly
   else if !global && v.scope = .global then .error .globalOnly
   else if isReadOnly v then .error .readOnly
   else match convert q v.ty x with
-    | some sv => .ok sv
+    | some sv => if notifyOk v sv then .ok sv else .error .charset
     | none => .error .invalid
 
 /-- `globalSystemVariables.SetGlobal`. -/
@@ -613,7 +758,12 @@ def readScoped (q : Quirks) (r : Reg) (st : State) (sid : Nat) (global : Bool) (
     Except Err (Ty × SVal) :=
   match r.find name with
   | none => .error .unknown
-  | some v => readSys r st sid (global || (isGlobalOnly v && !q.staleGlobalOnly)) name
+  | some v =>
+    -- `MysqlScope.GetValue`: a SESSION-scope read of character_set_database / collation_database is
+    -- answered from the current database; the property demands the session's value
+    match (if global || !q.catalogReads then none else v.catalog) with
+    | some c => .ok (v.ty, c)
+    | none => readSys r st sid (global || (isGlobalOnly v && !q.staleGlobalOnly)) name
 
 /-- Evaluate a planned right-hand side in the current (possibly already modified) state. -/
 def evalRhs (q : Quirks) (r : Reg) (st : State) (sid : Nat) : PRhs → Except Err (Val × UTy)
@@ -625,6 +775,34 @@ def evalRhs (q : Quirks) (r : Reg) (st : State) (sid : Nat) : PRhs → Except Er
     | some u => .ok (u.val, u.ty)
     | none => .ok (.null, .null)
 
+/-- The value `setSystemVar` gives to the counterpart of a coupled variable, from the evaluated
+(not yet converted) right-hand side: NULL stays NULL, a string is parsed as a character set /
+collation and mapped (default collation of the character set, character set of the collation),
+anything else is an invalid value. -/
+def coupledVal (tbl : List (String × String)) : Val → Except Err Val
+  | .null => .ok .null
+  | .str s => match tbl.find? (·.1 = lower s) with
+    | some p => .ok (.str p.2)
+    | none => .error .charset
+  | _ => .error .invalid
+
+/-- The counterpart of a coupled variable and its value table. -/
+def coupleOf (r : Reg) (name : String) : Option (String × List (String × String)) :=
+  (r.find name).bind (·.couple)
+
+/-- `setSystemVar`: the assignment itself, then — for character_set_connection / collation_connection
+/ character_set_server / collation_server — the counterpart, **through the same scope**. -/
+def setSystemVar (q : Quirks) (r : Reg) (st : State) (sid : Nat) (t : SysRef) (v : Val) : State × Option Err :=
+  match scopeSetValue q r st sid t.scope t.name v with
+  | (st1, some e) => (st1, some e)
+  | (st1, none) =>
+    match coupleOf r t.name with
+    | none => (st1, none)
+    | some (other, tbl) =>
+      match coupledVal tbl v with
+      | .error e => (st1, some e)
+      | .ok v' => scopeSetValue q r st1 sid t.scope other v'
+
 /-- One assignment at execution time (`buildSet` → `setSystemVar` / `setUserVar`). -/
 def execAsg (q : Quirks) (r : Reg) (st : State) (sid : Nat) (a : Target × PRhs) : State × Option Err :=
   match evalRhs q r st sid a.2 with
@@ -635,7 +813,14 @@ def execAsg (q : Quirks) (r : Reg) (st : State) (sid : Nat) (a : Target × PRhs)
       match st.sess sid with
       | some s => ({ st with sessions := putSess st.sessions sid { s with user := s.user.put (lower n) ⟨v, uty⟩ } }, none)
       | none => (st, some .other)
-    | .sys t => scopeSetValue q r st sid t.scope t.name v
+    | .sys t => setSystemVar q r st sid t v
+
+/-- `SET NAMES x` (planbuilder `buildSet` → `getSetVarExprsFromSetNamesExpr`): three SESSION
+assignments with the same right-hand side; `character_set_connection` then drags
+`collation_connection` along (`setSystemVar`). -/
+def expandNames (rhs : Rhs) : List (Target × Rhs) :=
+  ["character_set_client", "character_set_connection", "character_set_results"].map fun n =>
+    (Target.sys ⟨.session, false, n⟩, rhs)
 
 def execAsgs (q : Quirks) (r : Reg) (sid : Nat) : State → List (Target × PRhs) → State × Option Err
   | st, [] => (st, none)
